@@ -47,7 +47,7 @@ func (s Stack) Apply(opt *Option, profile string) (string, error) {
 	if names[0] != "X" {
 		clean = slices.Insert(slices.Clone(clean), 0,
 			util.ToRegexRepl([]string{
-				`(?m)^.*(|P|p)(|U|u)(|i)x,.*$`, ``, // Remove X transition rules
+				`(?m)^.*[\t ][rwmlk]*(|P|p|C|c)(|U|u)(|i)x[rwmlk]*([\t ]+->[\t ]+\S+)?,.*$`, ``, // Remove X transition rules
 			})...,
 		)
 	} else {
